@@ -503,7 +503,7 @@ theorem rerunIn_specM : ∀ (v : View) (t : RState), GoodM P0 Q0 v t → v.wf K 
           exact hP.ext hin.ext (hin.not_acted hnd' (by simp) (hbT e' (by simp)).2) (hothers _ _ _ he hpe)
     | _ => simp only [GoodM] at hg
   | scope sid d kid _ => intro t _ _ hc; simp [View.coreS] at hc
-  | forRows sel lists row _ => intro t _ _ hc; simp [View.coreS] at hc
+  | forRows en sel lists row _ => intro t _ _ hc; simp [View.coreS] at hc
   | forKeyed sel lists =>
     intro t hg hw _ hnd
     cases t with
